@@ -60,7 +60,10 @@ def witness(e, prop):
         oid = oid.get(prop)
     if oid is None:
         return None
-    return oid, w["values"]
+    vals = w["values"]
+    if vals and all(isinstance(v, dict) for v in vals.values()):
+        vals = vals.get(prop, {})          # per-property witness values
+    return oid, vals
 
 
 def _where(e, tags):
